@@ -69,6 +69,8 @@ func main() {
 			deadline, _ = strconv.ParseInt(next(), 10, 64)
 		case "--states":
 			states = next()
+		case "--upto":
+			mc.WorkerUpto, _ = strconv.Atoi(next())
 		case "--replay":
 			replay = next()
 		case "--quiet":
